@@ -907,10 +907,23 @@ def check_plan(draw):
         effective = p is not None
     if effective:
         bump("effective_draws")
+    def aborted(name):
+        # An op BEFORE the last one raised (e.g. the constructor of a
+        # precedence history parsing at init under the *older* settings hit
+        # the library's known crash on a colon-less lone section, C03): the
+        # call the pair speaks about never ran, so there is nothing to
+        # compare.  Seen on the unchanged tree in a 70 000-draw batch (3
+        # draws) -- a false alarm, corrected.
+        outs = results[name]["outcomes"]
+        return bool(outs) and "raised" in outs[-1] and len(outs) < len(H[name])
+
     for a, b, what in pairs:
         ra, rb = results[a], results[b]
         if ra["unavailable"] or rb["unavailable"]:
             bump(f"unavailable:{b}")
+            continue
+        if aborted(a) or aborted(b):
+            bump("aborted_history_skipped")
             continue
         if what == "ret_vs_tracts":
             va, vb = _project(ra, "tracts"), _project(rb, "ret")
